@@ -19,13 +19,23 @@ What the text demands, clause by clause (each clause has its own `sig`):
   callbacks       once enabled every handler component gets on_add(entity, world) once and then
                   on_world_load(handle, world) once, and nothing else
 
+Several loads of the same file against the same resource tree (`step` lines): every load is held
+to the same statement, with "the loaded resource" / "the handle" read off the tree as it is when
+that load starts (a cleared handle yields a new resource object, a replaced handle is the one found,
+an untouched one keeps its cached resource); the oracle keeps its own account of the tree.
+
+Processors of the same exact type listed twice: the later one replaces the earlier one (C07); every
+listed processor that is not followed by one of the same exact type must be present, whatever the
+inheritance relations between the listed types are.
+
 What it leaves open (nothing is demanded, whatever happens is accepted):
   * strings that begin with a marker but are not exactly marker + name + "}" with a name free of
     "}" and newline (DESIGN section 2),
   * references that cannot be resolved (unknown name, missing resource path, `$res{}` from a world
     handle outside a resource tree, the path of the world itself): the load may fail, any way,
-  * descriptions that are not well formed (repeated processor type, repeated component type in one
-    entity, clashing identifiers).
+  * descriptions that are not well formed (a default processor type listed again, repeated component
+    type in one entity, clashing identifiers),
+  * loads that follow a load the statement does not cover.
 """
 from harness.models.loader import Scenario, Ref, parse_val, parse_args, ent_id, show_id, show_json, dec
 
@@ -76,7 +86,10 @@ def expected_arg(sc, v, names, tree):
                 return Ref(f'M{p}'), kind
             if k == 'world':
                 return Ref('HW'), kind
-            return Ref(('R' if kind == 'resource' else 'H') + str(p)), kind
+            if kind == 'resource':
+                sc.touched.add(p)
+                return Ref(f'R{p}.{sc.gen_of(p)}'), kind
+            return Ref(f'H{p}'), kind
     return v, 'passthrough'
 
 
@@ -161,8 +174,7 @@ def check_inst(where, exp, got):
 
 
 def well_formed(sc, procs, ents):
-    ptypes = [p[0] for p in procs] + ([0, 1] if sc.mode == 'file' else [])
-    if len(set(ptypes)) != len(ptypes):
+    if sc.mode == 'file' and any(p[0] in (0, 1) for p in procs):
         return False
     ids, auto = [], 1
     for (idtok, _), comps in zip(sc.ents, ents):
@@ -177,37 +189,103 @@ def well_formed(sc, procs, ents):
     return len(set(ids)) == len(ids)
 
 
+class TreeAccount:
+    """the oracle's own account of the resource tree between loads"""
+
+    def __init__(self, sc):
+        self.tree = sc.tree_table()
+        self.cached, self.counts = {}, {}
+
+    def gen_of(self, hid):
+        return self.cached.get(hid, self.counts.get(hid, 0) + 1)
+
+    def called(self, hids):
+        for h in hids:
+            if h not in self.cached:
+                self.counts[h] = self.counts.get(h, 0) + 1
+                self.cached[h] = self.counts[h]
+
+    def step(self, st):
+        if st[0] == 'clear':
+            self.cached.pop(st[1], None)
+        elif st[0] == 'replace':
+            self.tree[st[1]] = ('handle', st[2])
+
+
+def split_blocks(obs):
+    blocks, cur = [], []
+    for ln in obs:
+        if ln.startswith('rx '):
+            continue
+        if ln.startswith('load '):
+            blocks.append(cur)
+            cur = []
+        else:
+            cur.append(ln)
+    blocks.append(cur)
+    return blocks
+
+
 def oracle(lines, obs, pid='C15'):
     sc = Scenario(lines)
-    names, tree = sc.name_table(), sc.tree_table()
+    acct = TreeAccount(sc)
+    sc.gen_of = acct.gen_of
+    blocks = split_blocks(obs)
+    k = 0
+    steps = list(sc.steps)
+    while True:
+        if k >= len(blocks):
+            return []
+        sc.touched = set()
+        verdict, go_on = check_load(sc, acct.tree, blocks[k], pid, k + 1)
+        if verdict or not go_on:
+            return verdict
+        acct.called(sorted(sc.touched))
+        while steps and steps[0][0] in ('clear', 'replace'):
+            acct.step(steps.pop(0))
+        if not steps:
+            return []
+        steps.pop(0)
+        k += 1
+
+
+def check_load(sc, tree, obs, pid, nth):
+    """one load against the statement -> (violations, later loads are still covered)"""
+    names = sc.name_table()
     o = parse_obs(obs)
     if o['res'] is None:
-        return []          # nothing but rx lines
+        return [], False          # nothing but rx lines
+    where = '' if nth == 1 else f'load {nth}: '
 
     def V(clause, what):
-        return [{'sig': f'{pid}:{clause}', 'what': what}]
+        return [{'sig': f'{pid}:{clause}', 'what': where + what}]
     try:
         procs = [expected_item(sc, p, names, tree) for p in sc.procs]
         ents = [[expected_item(sc, c, names, tree) for c in comps] for _, comps in sc.ents]
     except Unresolvable:
-        return []
+        return [], False
     for cid, _, _ in procs:
         if sc.classes.get(cid, ('?',))[0] != 'proc':
-            return []
+            return [], False
     if not well_formed(sc, procs, ents):
-        return []
+        return [], False
     free = any(kind == 'free' for it in procs + [c for e in ents for c in e]
                for _, kind in it[1] + list(it[2].values()))
     if o['res'] != 'ok':
         if free:
-            return []
+            return [], False
         cause = ''
         if sc.mode == 'file' and uncopyable_refs(sc, names):
             cause = ':uncopyable-object'
         elif sc.mode == 'file' and not sc.intree:
             cause = ':handle-outside-tree'
         return V('load-raised' + cause,
-                 f'every reference of the description can be resolved, yet loading {o["res"]}')
+                 f'every reference of the description can be resolved, yet loading {o["res"]}'), False
+    out = check_world(sc, o, procs, ents, V)
+    return (out[:1] if out else []), not free
+
+
+def check_world(sc, o, procs, ents, V):
     out = []
     if sc.mode != 'direct':
         if o.get('enabled') != 0:
@@ -216,7 +294,9 @@ def oracle(lines, obs, pid='C15'):
             out += V('early-callbacks', f'{o.get("pre")} callbacks ran before dispatching was enabled')
     # ---- processors
     prio = lambda cid: 0 if cid in (0, 1) else sc.classes[cid][1]          # noqa
-    exp_procs = ([(0, [], {}), (1, [], {})] if sc.mode == 'file' else []) + procs
+    # a later processor of the same exact type replaces the earlier one
+    kept = [p for i, p in enumerate(procs) if all(q[0] != p[0] for q in procs[i + 1:])]
+    exp_procs = ([(0, [], {}), (1, [], {})] if sc.mode == 'file' else []) + kept
     exp_procs = sorted(exp_procs, key=lambda p: prio(p[0]))               # stable
     got = o['procs'] or []
     if [f'C{p[0]}' for p in exp_procs] != [g.split(':')[1] for g in got]:
@@ -278,4 +358,4 @@ def oracle(lines, obs, pid='C15'):
                              f'(on_add once, then on_world_load once), received {[cb[1:] for _, cb in mine]}')
     if sc.mode != 'direct' and o.get('res-enable') != 'ok':
         out += V('callbacks', f'enabling dispatching {o.get("res-enable")}')
-    return out[:1] if out else []
+    return out
